@@ -457,6 +457,26 @@ def main(fn, pid, level='model_checking'):
 
 
 # --------------------------------------------------------------------------- Apalache (unbounded laws, extra)
+def absorb_sim(chk, rp, module, cfg, num, depth, judge=None, tag=None):
+    """long random behaviours of `module` (TLC -simulate): every step of every behaviour is one case (own history)"""
+    run = TlcRun(module, cfg, workers=4, simulate=max(1, num // 4), depth=depth, seed=chk.seed + 7, timeout=1500, coverage=False)
+    def src():
+        for r in run:
+            if judge is None or judge(r):
+                if tag:
+                    r.update(tag)
+                yield r
+    recs, verdicts = rp.run(src())
+    if run.errors:
+        raise MachineryError('TLC simulation of %s/%s failed: %s' % (module, cfg, run.errors[:5]))
+    if run.lines == 0:
+        raise MachineryError('no transition emitted by simulation of %s/%s' % (module, cfg))
+    run.generated = run.lines
+    chk.note_tlc(run)
+    chk.absorb(recs, verdicts, rp)
+    chk.exhaustive = False
+
+
 def apalache_laws(module, inv='Laws', timeout=300):
     """checks `inv` over Init (length 0) with Apalache, i.e. for ALL integer values; returns 'NoError' / 'Error' / 'unavailable'"""
     out = '%s/apalache/%s' % (BUILD, uuid.uuid4().hex[:10])
